@@ -92,6 +92,8 @@ class Index:
                         a['e'] = r
         self.end_seq = R[-1]['seq'] + 1 if R else 0
         self.has_spawn = any(r['k'] == 'spawn' for r in R)
+        self.reg_seq = {r['h']: r['seq'] for r in R if r['k'] == 'on'}
+        self._hf_cache = {}
         self.sane = not meta.get('hang') and not meta.get('abort')
         # payload specs the harness attached to events it created (scenario ops carry them)
         self.payloads = {}
@@ -133,14 +135,40 @@ class Index:
     def handlers_for(self, ev: int, bus: int):
         """Distinct handler FUNCTIONS registered on `bus` under a pattern matching the event: one function object registered under
         two matching patterns (or twice) is one handler of that bus and is delivered the event once."""
+        return self._handlers_for(ev, bus)[0]
+
+    def optional_handlers_for(self, ev: int, bus: int):
+        """Handlers registered (actor op 'on') after the bus accepted the event but before it began to process it: the library
+        selects handlers when processing starts, so they do run; an implementation that fixed the set at dispatch would satisfy
+        the property as well, so for these 0 or 1 deliveries are both accepted."""
+        return self._handlers_for(ev, bus)[1]
+
+    def _handlers_for(self, ev: int, bus: int):
+        key = (ev, bus)
+        c = self._hf_cache.get(key)
+        if c is not None:
+            return c
         t = self.evtype.get(ev)
-        out = []
+        must, maybe = [], []
+        acc = self.accepted.get(key)
+        acc_seq = acc['seq'] if acc is not None else 0
+        procs = self.procs_by.get(key, [])
+        last_begin = max((p['b']['seq'] for p in procs), default=10**12)
         for hi, h in enumerate(self.sc['handlers']):
             if h['bus'] == bus and pat_matches(h['pat'], t):
                 r = self.root_of(hi)
-                if r not in out:
-                    out.append(r)
-        return out
+                reg = 0 if not h.get('late') else self.reg_seq.get(hi)
+                if reg is None or reg > last_begin:
+                    continue  # never registered, or only after the (last) processing of this event on this bus began
+                if reg < acc_seq:
+                    if r in maybe:
+                        maybe.remove(r)
+                    if r not in must:
+                        must.append(r)
+                elif r not in must and r not in maybe:
+                    maybe.append(r)
+        self._hf_cache[key] = (must, maybe)
+        return must, maybe
 
     def via_forward(self, ev: int, bus: int) -> bool:
         """F4 applies to `bus` for this event: the event was accepted by several buses (forwarding, or user code dispatching the
@@ -271,15 +299,25 @@ def c01(ix: Index) -> None:
                 if n == 0 and res is not None and res['err'] == 'RuntimeError' and _self_recursion_depth(ix, ev, hi) >= 3:
                     mech = 'F2c'
                 ix.v('C01', 'delivery-count', mech, ev=ev, bus=bus, h=hi, n=n, result=res)
+        for hi in ix.optional_handlers_for(ev, bus):
+            n = entered.get((ev, bus, hi), 0)
+            ix.C['c01_deliveries_to_handlers_registered_in_flight'] += 1
+            if n > 1:
+                ix.v('C01', 'delivery-count', None, ev=ev, bus=bus, h=hi, n=n, registered='between accept and processing')
     for (ev, bus, hi), n in entered.items():
         if (ev, bus) not in ix.accepted:
             ix.v('C01', 'ran-for-unaccepted', None, ev=ev, bus=bus, h=hi)
+        elif hi not in ix.handlers_for(ev, bus) and hi not in ix.optional_handlers_for(ev, bus):
+            ix.v('C01', 'ran-for-handler-not-registered-in-time', None, ev=ev, bus=bus, h=hi)
     # event_results has exactly one entry per expected (bus, handler)
     for ev, f in fin.items():
         if any(e == ev and bus in stopped for (e, bus) in ix.accepted):
             continue
         want = collections.Counter(f'B{bus}.h{hi}' for (e, bus) in ix.accepted if e == ev for hi in ix.handlers_for(ev, bus))
         got = collections.Counter(x['hid'] for x in f['results'] if '.h' in x['hid'])
+        for k in {f'B{bus}.h{hi}' for (e, bus) in ix.accepted if e == ev for hi in ix.optional_handlers_for(ev, bus)}:
+            if got.get(k) == 1:
+                want[k] = 1  # registered between accept and processing: an entry is allowed, not required
         if want != got:
             mech = 'F2c' if all(_self_recursion_depth(ix, ev, int(k.split('.h')[1])) >= 3 for k in (want - got)) and not (got - want) and (want - got) else None
             ix.v('C01', 'result-entries', mech, ev=ev, want=dict(want), got=dict(got))
@@ -434,6 +472,19 @@ def abandoned_procs(ix: Index) -> list:
         for p in ix.procs.values():
             if p['b']['drv'] == x['inv'] and p['b']['seq'] < x['seq'] and (p['e'] is None or p['e']['seq'] >= x['seq'] or p['e']['exc'] is not None):
                 p['cancel_seq'] = x['seq']
+                out.append(p)
+    # the same mechanism without any handler being cancelled: the handler bounded its own wait (`asyncio.wait_for(child, T)`)
+    # and T expired while its inline drain was inside a process_event
+    wf = {(r['by'], r['ev']) for r in ix.R if r['k'] == 'wf_timeout'}
+    for a in ix.awaits:
+        e = a['e']
+        if e is None or e['exc'] != 'CancelledError' or (a['by'], a['ev']) not in wf:
+            continue
+        for p in ix.procs.values():
+            if p in out:
+                continue
+            if p['b']['drv'] == a['by'] and a['b']['seq'] < p['b']['seq'] < e['seq'] and (p['e'] is None or p['e']['seq'] >= e['seq'] or p['e']['exc'] is not None):
+                p['cancel_seq'] = e['seq']
                 out.append(p)
     ix._abandoned = out
     return out
@@ -858,7 +909,7 @@ def c15(ix: Index) -> None:
             if c['by'] != 'M' and _actor_fate(ix, c['by']) == 'cancelled':
                 continue
             if ix.sane:
-                ix.v('C15', 'never-returns', _hang_mech_bus(ix, c['bus']), bus=c['bus'], by=c['by'], detail={k: r[k] for k in ('q', 'pend', 'started', 'unfinished')} if r else None)
+                ix.v('C15', 'never-returns', _hang_mech_bus(ix, c['bus'], r), bus=c['bus'], by=c['by'], detail={k: r[k] for k in ('q', 'pend', 'started', 'unfinished')} if r else None)
             continue
         timed_out = c['timeout'] is not None and r['vt'] - c['vt'] >= c['timeout'] - EPS
         if timed_out:
@@ -881,10 +932,17 @@ def c15(ix: Index) -> None:
             ix.v('C15', 'slow-at-quiescence', None, bus=c['bus'], took=r['vt'] - c['vt'])
 
 
-def _hang_mech_bus(ix: Index, bus: int):
-    """F5 skips task_done() on the bus whose event was open in the drain of a cancelled handler."""
+def _hang_mech_bus(ix: Index, bus: int, rec: dict | None = None):
+    """F5 leaves the event that was open in the drain of a cancelled handler / cancelled await unfinished for ever: that bus
+    keeps a 'started' (or 'pending') event and therefore never reports idle.  A bus whose hang record shows nothing pending and
+    nothing started is NOT explained by F5 (the queue's unfinished-task count was left behind: repaired, see 'fixed' F25)."""
+    if rec is not None and rec.get('k') == 'idle_hang' and not rec.get('pend') and not rec.get('started'):
+        return 'F14' if ix.has_spawn else None
+    fin = ix.final['events']
     for p in abandoned_procs(ix):
         if bus < 0 or p['b']['bus'] == bus:
+            if rec is None and fin.get(p['b']['ev'], {}).get('status') == 'completed':
+                continue
             return 'F5'
     if ix.has_spawn:
         return 'F14'
@@ -1020,7 +1078,7 @@ def c10(ix: Index) -> None:
         fired.append(inv)
         res = next((q for q in fin.get(i['ev'], {}).get('results', []) if q['hid'] == f"B{i['bus']}.h{i['h']}"), None)
         # (a) cancelled at that time and stops executing
-        late_ops = [r for r in ix.R if r['k'] == 'op' and r['by'] == inv and r['vt'] > deadline + 1e-3]
+        late_ops = [r for r in ix.R if r['k'] == 'op' and r['op'] != 'cleanup_disp' and r['by'] == inv and r['vt'] > deadline + 1e-3]
         if x is None or x['out'] != 'cancel' or x['vt'] > deadline + 1e-3 or late_ops:
             if ended is None or ended > deadline + 1e-3 or late_ops:
                 ix.v('C10', 'handler-runs-past-timeout', None, ev=i['ev'], h=i['h'], deadline=deadline, exit=x and {'out': x['out'], 'vt': x['vt']}, late_ops=len(late_ops))
@@ -1050,7 +1108,6 @@ def c10(ix: Index) -> None:
     fired = fired + [inv for inv in raised_te if inv not in fired]
     if not fired:
         return
-    f5 = _hang_mech_bus(ix, -1)
     # (c) remaining handlers of the event still run; the event and every touched event completes
     if ix.sane:
         touched = set()
@@ -1081,7 +1138,7 @@ def c10(ix: Index) -> None:
         # (d) later events on the bus are processed; bus reports idle  (probe by harness at quiescence)
         for r in ix.R:
             if r['k'] == 'idle_hang':
-                ix.v('C10', 'bus-never-idle-after-timeout', f5, bus=r['bus'], detail={k: r[k] for k in ('q', 'pend', 'started', 'unfinished')})
+                ix.v('C10', 'bus-never-idle-after-timeout', _hang_mech_bus(ix, r['bus'], r), bus=r['bus'], detail={k: r[k] for k in ('q', 'pend', 'started', 'unfinished')})
         for (ev, bus), n in collections.Counter((r['ev'], r['bus']) for r in ix.enq_ok).items():
             done = sum(1 for p in ix.procs_by.get((ev, bus), []) if p['e'] is not None)
             if done < 1:
@@ -1141,7 +1198,15 @@ def _c10_mech(ix: Index, ev: int, fired: list, clause: str = 'incomplete'):
     # timeout path ran and cancelled that whole tree) - ev is still being processed then, and completes on the current tree
     mine = {f for f in _c10_effective(ix, fired) if ix.inv[f]['ev'] == ev}
     if mine and all(c and any(f in ch for f in mine) for _x, c, ch in below):
-        return None
+        # ... provided the abandoned events' handlers had all finished unwinding by the time ev's own processing ended: the last
+        # completion check of ev is made there, and a cancelled handler that is still running its clean-up (possible on a
+        # parallel_handlers bus, whose handler tasks outlive the abandoned process_event) only becomes terminal afterwards, when
+        # nothing walks up from the abandoned event any more - F5 again
+        last_check = max((p['e']['seq'] for p in ix.procs_by_ev(ev) if p['e'] is not None), default=None)
+        abx_below = {x for x, _c, _ch in below}
+        late = [i for i in ix.inv.values() if i['ev'] in abx_below and (ix.exit.get(i['seq']) is None or last_check is None or ix.exit[i['seq']]['seq'] > last_check)]
+        if not late:
+            return None
     return 'F5'
 
 
